@@ -5,6 +5,7 @@ import math
 import random
 from fractions import Fraction as F
 
+from harness.fieldp import Unrepresentable
 from harness import tlc, tracecheck, gen_batch as GB
 from harness.fieldp import qpair
 from harness.proxies import TapeMismatch
@@ -60,6 +61,8 @@ def validate(ctx, scenarios, wanted, label, workers=8):
         try:
             traces.append(GB.run(sc))
             kept.append(sc)
+        except Unrepresentable:
+            continue          # a logged number cannot be encoded in GF(P): the scenario is skipped, never failed
         except GB.ForeignRows as e:
             if wanted("batch.background_is_own_data"):
                 ctx.violation("trace.batch.background_is_own_data", "%s/%s" % (sc.cls, sc.mode), "scenario [%s]: %s" % (sc.key(), e),
